@@ -1,10 +1,10 @@
-\* thorough universe: 8 atoms, arity <= 3 at the innermost level, frozenarray and G2 as well
+\* thorough universe: 8 atoms, tuples of arity <= 2, frozenarray and G2 as well
 SPECIFICATION Spec
 CONSTANTS
   AtomNames = {"int", "nat", "float", "bool", "none", "qubit", "str", "S0"}
   NatVals = {0, 3}
   MaxTup = 2
-  MaxTupDeep = 3
+  MaxTupDeep = 2
   Depth = 2
   Opq1 = {"Option", "G"}
   Opq2 = {"array", "frozenarray", "G2"}
